@@ -1022,6 +1022,19 @@ func runAppendThroughAlias(p *Prog, r *Report) {
 				if rootOf(fn).isParam(yo) || fn.isParam(yo) {
 					live = true
 				}
+				// a variable captured from the enclosing function: in use when anything outside
+				// this literal reads it
+				if !live && fn.Lit != nil && (yo.Pos() < fn.Lit.Pos() || yo.Pos() > fn.Lit.End()) {
+					ast.Inspect(rootOf(fn).Body, func(m ast.Node) bool {
+						if m == ast.Node(fn.Lit) {
+							return false
+						}
+						if u, ok := m.(*ast.Ident); ok && info.Uses[u] == yo {
+							live = true
+						}
+						return !live
+					})
+				}
 				if live {
 					r.Add("E3.append-through-alias", fn.Name, xid.Name+" = append("+xid.Name+", …) with "+xid.Name+" := "+yid.Name, p.Pos(as), Violated,
 						xid.Name+" is a copy of the slice header of "+yid.Name+", which stays in use: the append stores into "+yid.Name+"'s backing array when it has spare capacity, so successive appends (siblings, iterations, later callers) overwrite each other's elements", true)
